@@ -221,6 +221,31 @@ func checkNumber(w *core.Worker, rr *core.Rand, s string) {
 			w.Inc("port_rejected_out_of_range")
 		}
 	}
+	// --- Content-Length as a header of a whole message (skip-body, so only the number matters),
+	// one-shot and with every cut inside the digits ---
+	for _, hn := range []string{"Content-Length: ", "l:", "CONTENT-LENGTH :\t"} {
+		pre := "OPTIONS sip:r SIP/2.0\r\nCSeq: 1 OPTIONS\r\n" + hn
+		in := []byte(pre + s + "\r\n\r\n")
+		cuts := append(CutsEveryPrefix(nil, len(pre), len(pre)+len(s)), len(in))
+		inRange := v.Cmp(bigCLen) <= 0 && len(s) <= 9
+		for _, cs := range [][]int{{len(in)}, cuts} {
+			o := newMsg(Cfg{HdrCap: -1, ContactCap: -1, MsgFlags: sipsp.SIPMsgSkipBodyF}).(*msgObj)
+			_, e, pan := driveAll(o, in, cs)
+			w.Eval(1)
+			if pan != "" {
+				continue
+			}
+			if e == sipsp.ErrHdrOk {
+				w.Inc("message_clen_accepted")
+				got := new(big.Int).SetUint64(uint64(o.m.PV.CLen.UIVal))
+				if got.Cmp(v) != 0 || !inRange {
+					fail("message-clen", fmt.Sprintf("message with %q%s accepted (delivered in %d pieces): Content-Length reported as %d; the documented range is <= 2^24 and at most 9 digits", hn, s, len(cs), o.m.PV.CLen.UIVal), in, "")
+				}
+			} else if inRange && canonical(s) {
+				fail("message-rejects-valid", fmt.Sprintf("message with Content-Length %s rejected: %s", s, errName(e)), in, "")
+			}
+		}
+	}
 	// --- inside a whole message, chunked through the digits ---
 	{
 		pre := "REGISTER sip:r SIP/2.0\r\nCSeq: "
